@@ -13,6 +13,7 @@ pub mod c24;
 pub mod c26;
 pub mod c27;
 pub mod c28;
+pub mod queue;
 pub mod sched;
 
 pub fn all() -> Vec<&'static dyn Property> {
